@@ -422,6 +422,69 @@ fn emit_fn(
     rules::self_mut(selector, cfg, &mut sig, fired);
     rules::mut_self(&mut sig, &mut block, fired);
     rules::unshadow_params(&sig, &mut block, fired);
+    // R-chainlet (let form): `let P = f(a.m1(x).m2(y));` as top-level statement K => `let __lK_0 = a.m1(x); let __lK_1 = __lK_0.m2(y); let P = f(__lK_1);`
+    if let Some(c) = contract {
+        let mut ks = c.chainlet_lets.clone();
+        ks.sort();
+        ks.reverse();      // from the back, so that earlier ordinals stay valid
+        for k in ks {
+            // K counts the statements of the repository's own text: insertion markers (`__vx_insert!(..)`) do not count
+            let is_marker = |s: &Stmt| matches!(s, Stmt::Macro(m) if m.mac.path.is_ident("__vx_insert"));
+            let mut pos = None;
+            let mut seen = 0usize;
+            for (i, s) in block.stmts.iter().enumerate() {
+                if is_marker(s) { continue; }
+                if seen == k { pos = Some(i); break; }
+                seen += 1;
+            }
+            let orig_k = k;
+            let k = match pos { Some(p) => p, None => die(&format!("{}: @chainlet let {}: the body has {} statements (lost anchor)", selector, orig_k, seen)) };
+            let st = block.stmts[k].clone();
+            let mut local = match st { Stmt::Local(l) => l, _ => die(&format!("{}: @chainlet let {}: statement {} is not a `let` (lost anchor)", selector, k, k)) };
+            let init = match local.init.as_mut() { Some(i) => i, None => die(&format!("{}: @chainlet let {}: no initialiser (lost anchor)", selector, k)) };
+            // peel one-argument wrapper calls, then the method chain
+            fn innermost_chain(e: &mut syn::Expr) -> Option<&mut syn::Expr> {
+                let kind = match e {
+                    syn::Expr::Call(c) if c.args.len() == 1 => 1,
+                    syn::Expr::Reference(_) => 2,
+                    syn::Expr::MethodCall(_) => 3,
+                    _ => 0,
+                };
+                match kind {
+                    1 => if let syn::Expr::Call(c) = e { innermost_chain(c.args.first_mut().unwrap()) } else { None },
+                    2 => if let syn::Expr::Reference(r) = e { innermost_chain(&mut r.expr) } else { None },
+                    3 => Some(e),
+                    _ => None,
+                }
+            }
+            let slot = match innermost_chain(&mut init.expr) { Some(s) => s, None => die(&format!("{}: @chainlet let {}: the initialiser holds no method chain (lost anchor)", selector, k)) };
+            let mut calls: Vec<syn::ExprMethodCall> = Vec::new();
+            let mut cur = slot.clone();
+            loop {
+                match cur {
+                    syn::Expr::MethodCall(mc) => { let recv = (*mc.receiver).clone(); calls.push(mc); cur = recv; }
+                    other => { cur = other; break; }
+                }
+            }
+            calls.reverse();
+            let mut pre: Vec<Stmt> = Vec::new();
+            let mut prev: syn::Expr = cur;
+            for (j, mut mc) in calls.into_iter().enumerate() {
+                let id = syn::Ident::new(&format!("__l{}_{}", orig_k, j), Span::call_site());
+                mc.receiver = Box::new(prev);
+                let e = syn::Expr::MethodCall(mc);
+                pre.push(syn::parse_quote!(let #id = #e;));
+                prev = syn::parse_quote!(#id);
+            }
+            *slot = prev;
+            // the split statements take the place of statement K as ONE block-less sequence: keep ordinals by wrapping nothing,
+            // later `@insert stmt K after` anchors refer to the original ordinals (markers are placed before this rewrite)
+            let mut seq = pre;
+            seq.push(Stmt::Local(local));
+            block.stmts.splice(k..k + 1, seq);
+            *fired.entry("R-chainlet-let".into()).or_insert(0) += 1;
+        }
+    }
     // R-chainlet: `a.m1(x).m2(y)` in tail position => `let __c0 = a.m1(x); let __c1 = __c0.m2(y); __c1`
     if contract.map(|c| c.chainlet).unwrap_or(false) {
         if let Some(Stmt::Expr(tail, None)) = block.stmts.pop() {
